@@ -573,7 +573,7 @@ def explore_threads(case):
         nrun = 0
         _quiet = contextlib.redirect_stdout(io.StringIO())  # one redirection around the exploration, none inside the threads
         _quiet.__enter__()
-        for choices, results, npts, capped in threads.explore([fa, fb], ("cyecca/lie/", "cyecca/symbolic.py"), 1 if case["tier"] == "quick" else 2, max_runs=3000 if case["tier"] == "quick" else 30000):
+        for choices, results, npts, capped in threads.explore([fa, fb], ("cyecca/lie/", "cyecca/symbolic.py"), 1 if case["tier"] == "quick" else 2, max_runs=3000 if case["tier"] == "quick" else 6000):
             if capped:
                 res.counters["thread_schedules_capped"] += 1
                 break
